@@ -100,6 +100,22 @@ def run_template(prop, template_path, repo_root=None, rlimit=30, timeout=600, ex
         pass
     res["smt_ms"] = big.get("times-ms", {}).get("smt", {}).get("total")
     res["verus_version"] = big.get("verus", {}).get("version")
+    # items that gained an unannotated closure relative to the committed baseline (see engine/mk_closure_baseline.py)
+    new_closures = {}
+    try:
+        base = json.load(open(os.path.join(VERIF, "engine", "closures_baseline.json")))
+        key = os.path.relpath(os.path.normpath(template_path), os.path.join(VERIF, "contracts"))
+        for it in meta["items"]:
+            if it.get("is_fn"):
+                known = list(base.get(key, {}).get(it["sel"], []))
+                extra = []
+                for c in it.get("unannotated_closures", []):
+                    if c in known: known.remove(c)
+                    else: extra.append(c)
+                if extra: new_closures[it["sel"]] = extra
+    except Exception:
+        pass
+    res["new_unannotated_closures"] = new_closures
     lines = text.split("\n")
     errors = [d for d in diags if d.get("level") == "error" and not d.get("message", "").startswith("aborting due to")]
     for d in errors:
@@ -133,6 +149,11 @@ def run_template(prop, template_path, repo_root=None, rlimit=30, timeout=600, ex
              "in_extracted_item": bool(item), "region": region["kind"] if region else None}
         if not any(p in msg.lower() for p in VERIFICATION_FAILURES) or d.get("code"):
             f["tool_limit"] = True   # not a proof obligation: syntax/type/unsupported-construct/rlimit => undecided
+        elif item and item["sel"] in new_closures:
+            # the function now contains a closure literal Verus has no contract for: the proof cannot see what it does, so this
+            # failure is lack of information (it would also fail for a correct body) => undecided, never an alarm
+            f["tool_limit"] = True
+            f["message"] = msg + f" [undecided: {item['sel']} gained closure(s) without a contract: {new_closures[item['sel']][:2]}]"
         res["failures"].append(f)
     if not errors and vr.get("success") and rc == 0:
         res["ok"] = True
